@@ -413,10 +413,14 @@ func ConvertPC(pc int, minor bool, op byte) (int, bool, error) {
 	return 0, false, fmt.Errorf("unknown operation %q", op)
 }
 
+// ExtraSupported holds keys beyond the 28 that the tool under observation reports as supported
+// (property C13 says "at least"); set once at the start of a check, before any concurrency.
+var ExtraSupported []Key
+
 // SpellingsOf returns the sorted supported spellings of (pc, mode).
 func SpellingsOf(pc int, minor bool) []string {
 	var r []string
-	for _, k := range Supported() {
+	for _, k := range append(Supported(), ExtraSupported...) {
 		if k.Tonic.PC() == pc && k.Minor == minor {
 			r = append(r, k.String())
 		}
